@@ -4,9 +4,15 @@ from vf import Check, Stream, hexs, VERIF
 # Property C13.  One case = one history of one Server client created by Server::pair, driven between
 # run() calls (and, with `react`, from inside its callbacks) under the simulated kernel
 # (harness/serverwrite_kernel.cpp: send / epoll_ctl / epoll_wait interposed).  Op lines:
-#   write <hex> <outcome>   ev <mask> <outcome>   poll <outcome>   tick   suspend   resume   read <max>
-#   remove   peerwrite <hex>   peerread   peerclose   react <onRead|onWrite|onClosed> <op...>
-# outcome of the ONE send the operation may issue: wb | s<k> | full | zero | err ; mask: letters of i o h, or -
+#   write <hex> <outcome>   write0 <hex> <outcome> (no postponed pointer)   ev <mask> <outcome>   poll <outcome>   tick
+#   suspend   resume   read <max>   remove   peerwrite <hex>   peerread   peerclose
+#   react <onRead|onWrite|onClosed> <op...>
+# outcome of the ONE send the operation may issue: wb | s<k> | full | zero | err
+# mask: letters of i(EPOLLIN) o(EPOLLOUT) h(EPOLLHUP) d(EPOLLRDHUP) e(EPOLLERR), or -
+# A case whose first line is `@two` has TWO clients A and B of the same Server: every client operation may carry the
+# prefix `A.` / `B.` (default A), callbacks are `A.onRead` ..., and
+#   evs <A:mask,B:mask> <outcome>*   is one run() whose single epoll round reports these clients in this order; the
+#                                    outcomes answer the send calls of the run in order
 
 
 def data(rng, n, kind=0):
@@ -27,7 +33,7 @@ class Seq:
 
 
 OUTCOMES_BENIGN = ['wb', 's1', 's2', 's3', 'full']
-MASKS = ['-', 'i', 'o', 'h', 'io', 'ih', 'oh', 'ioh']
+MASKS = ['-', 'i', 'o', 'h', 'io', 'ih', 'oh', 'ioh', 'd', 'e', 'od', 'id', 'ie', 'oe', 'de', 'iode']
 
 
 def sent_of(outcome, n):
@@ -129,10 +135,16 @@ class C13(Check):
         h = hashlib.sha256(open(os.path.join(VERIF, 'harness', 'serverwrite_kernel.h'), 'rb').read()).hexdigest()[:12]
         self.harness_flags = ['-DSK_HDR_HASH=0x' + h]      # header content takes part in the build key
 
+    @staticmethod
+    def field(l, name):
+        k = l.find(' ' + name + '=')
+        return l[k + len(name) + 2:].split(' ')[0].split('/') if k >= 0 else []
+
     def nontrivial(self, case, obs):
-        backlog = any((' sb=' in l and not l.split(' sb=')[1].startswith(('0 ', '- '))) for l in obs)
-        susp_ev = any((' susp=1' in l and l.split(' ')[1] in ('ev', 'poll')) for l in obs if len(l.split(' ')) > 1)
-        gave_up = any(' cb=onClosed' in l for l in obs)
+        backlog = any(any(v not in ('0', '-') for v in self.field(l, 'sb')) for l in obs)
+        susp_ev = any(('1' in self.field(l, 'susp') and l.split(' ')[1].split('.')[-1] in ('ev', 'evs', 'poll'))
+                      for l in obs if len(l.split(' ')) > 1)
+        gave_up = any('onClosed' in ','.join(self.field(l, 'cb')) for l in obs)
         return backlog or susp_ev or gave_up
 
     def judge(self, cases, impl_obs, spec_obs):
@@ -236,10 +248,10 @@ class C13(Check):
                     if rng.random() < 0.9 and n == 0:
                         n = 2
                     o = aimed_outcome(rng, n, allow_fail=rng.random() < fail_rate)
-                    ops.append('write %s %s' % (hexs(seq.take(n)), o))
+                    ops.append('%s %s %s' % ('write0' if rng.random() < 0.3 else 'write', hexs(seq.take(n)), o))
                     t.write(n, o)
                 elif r < 0.55:
-                    mask = rng.choice(['o', 'o', 'io', 'io', 'i', 'oh', 'ioh', 'h', 'ih', '-'])
+                    mask = rng.choice(['o', 'o', 'io', 'io', 'i', 'oh', 'ioh', 'h', 'ih', '-', 'd', 'od', 'id', 'e', 'oe', 'ie'])
                     o = aimed_outcome(rng, max(t.backlog, 1), allow_fail=rng.random() < fail_rate)
                     ops.append('ev %s %s' % (mask, o))
                     t.ev(mask, o)
@@ -273,6 +285,73 @@ class C13(Check):
             cases.append(ops)
         return Stream(name, cases, note=note)
 
+    def gen_two_round(self, thorough):
+        """two clients ready in ONE poll round; the callback of the one notified first changes what the other one
+        wants (suspend / resume / remove / new backlog / read) before the other one's collected event is delivered"""
+        cases = []
+        m_first = ['i', 'io', 'o', 'h'] if thorough else ['i', 'io']
+        m_other = ['i', 'io', 'o', 'ih', 'oh', 'd', 'e'] if thorough else ['i', 'io', 'oh']
+        for F, O in (('A', 'B'), ('B', 'A')):
+            reactions = ['%s.suspend' % O, '%s.resume' % O, '%s.remove' % O, '%s.write 0a0b wb' % O, '%s.write 0c full' % O,
+                         '%s.read 9' % O, '%s.suspend' % F, '%s.remove' % F]
+            if thorough:
+                reactions += ['%s.write 0d err' % O, '%s.peerclose' % O, '%s.read 9' % F]
+            for pre_f in ([], ['%s.write 0102 wb' % F]):
+                for pre_o in ([], ['%s.write 0304 wb' % O], ['%s.suspend' % O], ['%s.write 0304 wb' % O, '%s.suspend' % O]):
+                    for m1 in m_first:
+                        for m2 in m_other:
+                            for rx in reactions:
+                                cases.append(['@two', 'A.peerwrite 11', 'B.peerwrite 22'] + pre_f + pre_o +
+                                             ['react %s.onRead %s' % (F, rx), 'react %s.onWrite %s' % (F, rx),
+                                              'evs %s:%s,%s:%s s1 full full' % (F, m1, O, m2),
+                                              'tick full full', '%s.resume' % O, 'evs A:io,B:io full full', 'tick full full', 'A.peerread', 'B.peerread'])
+        return Stream('two-clients-one-round', cases, exhaustive=True,
+                      note='order x backlog/suspended pre-state x readiness of both x what the first callback does to the other client')
+
+    def gen_two_histories(self, rng, count, fail_rate):
+        cases = []
+        for _ in range(count):
+            seqs = {'A': Seq(rng.randrange(256)), 'B': Seq(rng.randrange(256))}
+            tr = {'A': Track(), 'B': Track()}
+            ops = ['@two']
+            for _ in range(rng.randrange(4, 24)):
+                X = rng.choice('AB')
+                Y = 'B' if X == 'A' else 'A'
+                r = rng.random()
+                if r < 0.25:
+                    n = rng.choice([1, 2, 3, 5, 8])
+                    o = aimed_outcome(rng, n, allow_fail=rng.random() < fail_rate)
+                    ops.append('%s.%s %s %s' % (X, 'write0' if rng.random() < 0.2 else 'write', hexs(seqs[X].take(n)), o))
+                    tr[X].write(n, o)
+                elif r < 0.55:
+                    order = [X, Y] if rng.random() < 0.8 else [X]
+                    evs = ','.join('%s:%s' % (c, rng.choice(['i', 'o', 'io', 'io', 'io', 'ioh', 'oh', 'h', 'd', 'e', 'id'])) for c in order)
+                    outs = [aimed_outcome(rng, max(tr[c].backlog, 1), allow_fail=rng.random() < fail_rate) for c in order] + ['full']
+                    ops.append('evs %s %s' % (evs, ' '.join(outs)))
+                    for c, o in zip(order, outs):
+                        tr[c].backlog = 0 if o in ('full', 'zero', 'err') else tr[c].backlog      # rough aim only
+                elif r < 0.63:
+                    ops.append('%s.suspend' % X)
+                elif r < 0.71:
+                    ops.append('%s.resume' % X)
+                elif r < 0.79:
+                    ops.append('%s.peerwrite %s' % (X, hexs(data(rng, rng.randrange(1, 4)))))
+                elif r < 0.83:
+                    ops.append('%s.peerread' % X)
+                elif r < 0.95:
+                    cb = rng.choice(['onRead', 'onRead', 'onWrite', 'onClosed'])
+                    inner = rng.choice(['%s.suspend' % Y, '%s.suspend' % Y, '%s.resume' % Y, '%s.read 100' % X, '%s.read 1' % Y,
+                                        '%s.write %s %s' % (Y, hexs(seqs[Y].take(2)), rng.choice(OUTCOMES_BENIGN)),
+                                        '%s.suspend' % X, '%s.remove' % Y if rng.random() < 0.4 else '%s.read 3' % X])
+                    ops.append('react %s.%s %s' % (X, cb, inner))
+                elif rng.random() < fail_rate:
+                    ops.append(rng.choice(['%s.peerclose' % X, '%s.remove' % X]))
+                else:
+                    ops.append('tick full full')
+            ops += ['tick full full', 'A.resume', 'B.resume', 'evs A:o,B:o full full', 'evs A:o,B:o full full', 'A.peerread', 'B.peerread']
+            cases.append(ops)
+        return Stream('two-client-histories', cases, note='random histories of two clients of one Server; callbacks of one client act on the other')
+
     def gen_boundary(self, rng):
         seq = Seq()
         c = []
@@ -297,6 +376,18 @@ class C13(Check):
         c.append(['peerclose', 'react onRead read 10', 'poll full', 'react onClosed remove', 'tick', 'write 00 full'])
         c.append(['write 010203 s1', 'peerclose', 'react onRead read 10', 'poll full', 'tick', 'ev oh err', 'tick'])
         c.append(['peerwrite 0a0b0c', 'poll full', 'react onRead read 2', 'poll full', 'suspend', 'poll full', 'resume', 'react onRead read 2', 'poll full', 'poll full'])
+        # two failures before the next run(): _closingClients is a set, ONE onClosed
+        c.append(['write 01 err', 'write 02 zero', 'tick', 'tick'])
+        c.append(['peerclose', 'read 1', 'read 1', 'write 01 err', 'tick', 'tick'])
+        c.append(['write 01 err', 'write 02 err', 'react onClosed write 03 err', 'tick', 'tick', 'tick'])
+        # write without a postponed pointer: failure path, all-sent path, buffered path, append path
+        for o in ('err', 'zero', 'full', 'wb', 's1', 's2'):
+            c.append(['write0 0102 ' + o, 'write0 03 ' + o, 'ev o s1', 'tick', 'ev o full', 'peerread'])
+        c.append(['write0 - full', 'write0 - wb', 'write0 0102030405 s2', 'write0 06 full', 'ev o full', 'peerread'])
+        # half hang-up (EPOLLRDHUP) and error condition (EPOLLERR) alone and combined, per interest set
+        for pre in ([], ['write 0102 wb'], ['suspend'], ['write 0102 wb', 'suspend']):
+            for m in ('d', 'e', 'de', 'h', 'he', 'id', 'od', 'oe', 'ie'):
+                c.append(pre + ['peerwrite 0a', 'ev %s s1' % m, 'ev %s full' % m, 'resume', 'poll full', 'peerread'])
         # large blocks through the real socket pair
         for n, k in ((20000, 1), (20000, 19999), (30000, 16384), (4096, 4095)):
             d = data(rng, n, 3)
@@ -306,7 +397,8 @@ class C13(Check):
     def streams(self, tier, rng):
         thorough = tier == 'thorough'
         out = [self.gen_write_matrix(thorough), self.gen_mask_matrix(thorough), self.gen_all_short(thorough),
-               self.gen_starve(rng, thorough), self.gen_boundary(rng)]
+               self.gen_starve(rng, thorough), self.gen_boundary(rng), self.gen_two_round(thorough),
+               self.gen_two_histories(rng, 4000 if thorough else 1200, 0.3)]
         out.append(self.gen_histories(rng, 8000 if thorough else 2500, 0.0, 0.04, 'benign-histories',
                                       'send outcomes would-block / partial / full only (the property\'s quantifier), partial counts aimed at 1, n-1, n, n+1'))
         out.append(self.gen_histories(rng, 4000 if thorough else 1200, 0.5, 0.05, 'faulty-histories',
